@@ -18,17 +18,27 @@ class Tracked:
     """base of stub objects: attribute writes inside a cut loop body are logged (soundness of havoc)"""
 
     def __setattr__(self, k, v):
-        c = core.CTX
-        if c is not None and getattr(c, "loop_depth", 0) > 0:
-            c.writes.append((id(self), type(self).__name__, k))
+        log_write(self, k)
         object.__setattr__(self, k, v)
+
+
+def log_write(obj, key):
+    """record a heap write made inside a cut loop body; objects whose first write happens inside the body are fresh (created there)"""
+    c = core.CTX
+    if c is None:
+        return
+    epoch = getattr(c, "loop_epoch", 0)
+    d = getattr(obj, "__dict__", None)
+    if d is not None and "_born" not in d:
+        d["_born"] = epoch if getattr(c, "loop_depth", 0) > 0 else -1
+    if getattr(c, "loop_depth", 0) > 0:
+        born = d.get("_born", -1) if d is not None else -1
+        c.writes.append((id(obj), type(obj).__name__, key, born))
 
 
 class TrackedDict(dict):
     def __setitem__(self, k, v):
-        c = core.CTX
-        if c is not None and getattr(c, "loop_depth", 0) > 0:
-            c.writes.append((id(self), "dict", k))
+        log_write(self, k)
         dict.__setitem__(self, k, v)
 
 
@@ -148,6 +158,10 @@ class RT:
     def enter_body(self, k):
         c = ctx()
         c.loop_depth = getattr(c, "loop_depth", 0) + 1
+        c.loop_epoch = getattr(c, "loop_epoch", 0) + 1
+        if not hasattr(c, "epoch_stack"):
+            c.epoch_stack = []
+        c.epoch_stack.append(c.loop_epoch)
         if not hasattr(c, "writes"):
             c.writes = []
         c.cover("loop%d:body-reachable" % k)
@@ -155,6 +169,7 @@ class RT:
     def leave_body(self, k, ns):
         c = ctx()
         c.loop_depth -= 1
+        my_epoch = c.epoch_stack.pop()
         allowed = set()
         for path, _ in self.spec(k).get("modifies", []):
             obj = ns.get(path[0])
@@ -166,8 +181,8 @@ class RT:
             except AttributeError:
                 pass
         fresh_ok = self.spec(k).get("fresh_ok", ())
-        for oid, tname, key in c.writes:
-            if (oid, key) in allowed or (oid, "*") in allowed or tname in fresh_ok:
+        for oid, tname, key, born in c.writes:
+            if (oid, key) in allowed or (oid, "*") in allowed or tname in fresh_ok or born >= my_epoch:
                 continue
             raise Unsupported("loop %d body writes %s.%s which is not in loop_modifies" % (k, tname, key))
         if c.loop_depth == 0:
@@ -244,9 +259,7 @@ class SymDict(dict):
             self._promote(k, v)
             self.sym[k] = v
         else:
-            c = core.CTX
-            if c is not None and getattr(c, "loop_depth", 0) > 0:
-                c.writes.append((id(self), "SymDict", k))
+            log_write(self, k)
             dict.__setitem__(self, k, v)
 
     def __getitem__(self, k):
@@ -271,9 +284,7 @@ class SymList(list):
     """`[]` literal: a real list; converts to nothing else (abstract lists come from stubs / havoc rules)"""
 
     def append(self, x):
-        c = core.CTX
-        if c is not None and getattr(c, "loop_depth", 0) > 0:
-            c.writes.append((id(self), "SymList", "append"))
+        log_write(self, "append")
         list.append(self, x)
 
 
@@ -288,6 +299,11 @@ def len_(x):
     if isinstance(x, SymDict) and x.sym is not None:
         return Sym(x.sym.enum().n)
     if isinstance(x, LazyMap):
+        if x.flt is not None:        # filtered comprehension: some number of elements between 0 and the length of the source
+            c = ctx()
+            n = c.fresh_const("filtered_len", INT)
+            c.assume(z3.And(n >= 0, n <= lift(x.seq.length())))
+            return Sym(n)
         return x.to_seq().length()
     if isinstance(x, Sym) and x.t.sort() == STR:
         return Sym(z3.Length(x.t))
